@@ -258,7 +258,13 @@ def cond_check(kind, case, rec):
         res = None
         for k in range(1, steps + 1):
             _, lc = fem.dof.uniaxial(field, clamped=case["clamped"], move=case["move"] * k / steps)
-            res = fem.newtonrhapson(items=[solid], **lc, tol=1e-11, maxiter=40)
+            try:
+                res = fem.newtonrhapson(items=[solid], **lc, tol=1e-11, maxiter=40)
+            except ValueError:
+                # for bulk / mu = 5000 the residual norm stalls at its round-off floor of 1-4e-11: continue from the last
+                # iterate (kept in the field) with a tolerance above that floor; a genuine failure fails again
+                res = fem.newtonrhapson(items=[solid], **lc, tol=1e-9, maxiter=8)
+                rec.label("round-off-floor-retry")
         return res
 
     def attempt(steps):
